@@ -9,7 +9,7 @@ use serde_json::{json, Value};
 
 pub const RULE: &str = "all sequences of length 0..=8 over {ordinary, MESSAGE-INTEGRITY, MESSAGE-INTEGRITY-SHA256, FINGERPRINT} (87381 with the \
 empty one) rendered by the reference encoder with MAC/CRC masks {all correct, each single verifiable attribute incorrect, one pseudo-random mask}, \
-each decoded under the 16 decoder option combinations plus the context-less decoder; one evaluation = one (sequence, mask); \
+each decoded under the 16 decoder option combinations plus the context-less decoder, as a message of every class (sequences up to 5 attributes) or of one class chosen by position (longer ones); one evaluation = one (sequence, mask); \
 non-trivial = the sequence contains at least one attribute that the ordering rule does not admit; distinct = (sequence, mask)";
 
 /// kinds: 0 ordinary, 1 MI, 2 SHA256, 3 FP.  `bad` bit i set = verifiable attribute at position i carries a wrong value.
@@ -17,6 +17,13 @@ non-trivial = the sequence contains at least one attribute that the ordering rul
 pub struct SeqCase {
     pub kinds: Vec<u8>,
     pub bad: u16,
+    /// message class 0-3 (the ordering rule does not depend on it)
+    #[serde(default = "default_class")]
+    pub class: u8,
+}
+
+fn default_class() -> u8 {
+    2
 }
 
 const PW: &str = "c09-password";
@@ -47,7 +54,7 @@ pub fn render(c: &SeqCase) -> (RMsg, Encoded) {
         .collect();
     let msg = RMsg {
         method: 1,
-        class: 2,
+        class: c.class & 3,
         tid: [0x33; 12],
         attrs,
     };
@@ -221,12 +228,20 @@ pub fn cases(seed: u64) -> Vec<SeqCase> {
     let mut out = Vec::new();
     for kinds in sequences(8) {
         let ver: Vec<usize> = (0..kinds.len()).filter(|i| kinds[*i] != 0).collect();
-        out.push(SeqCase { kinds: kinds.clone(), bad: 0 });
+        // every class for sequences of up to 5 attributes, one class (by position in the enumeration) for longer ones
+        let classes: Vec<u8> = if kinds.len() <= 5 { vec![0, 1, 2, 3] } else { vec![(out.len() % 4) as u8] };
+        let class = *classes.last().unwrap();
+        for cl in &classes {
+            out.push(SeqCase { kinds: kinds.clone(), bad: 0, class: *cl });
+        }
         for i in &ver {
-            out.push(SeqCase {
-                kinds: kinds.clone(),
-                bad: 1 << i,
-            });
+            for cl in &classes {
+                out.push(SeqCase {
+                    kinds: kinds.clone(),
+                    bad: 1 << i,
+                    class: *cl,
+                });
+            }
         }
         if ver.len() >= 2 {
             // one pseudo-random mask over the verifiable positions, a pure function of (seed, sequence)
@@ -238,7 +253,7 @@ pub fn cases(seed: u64) -> Vec<SeqCase> {
                 }
             }
             if bad.count_ones() >= 2 {
-                out.push(SeqCase { kinds: kinds.clone(), bad });
+                out.push(SeqCase { kinds: kinds.clone(), bad, class });
             }
         }
     }
